@@ -525,9 +525,9 @@ def summarize_dataset(case):
 def parts(tier):
     return [
         Part(name="functional", evaluate=eval_functional, strategy=strategy_functional,
-             budget={"quick": 400, "thorough": 16000}, min_nontrivial={"quick": 80, "thorough": 3000}),
+             budget={"quick": 400, "thorough": 60000}, min_nontrivial={"quick": 80, "thorough": 12000}),
         Part(name="dataset", evaluate=eval_dataset, strategy=strategy_dataset, summarize=summarize_dataset,
-             budget={"quick": 300, "thorough": 6000}, min_nontrivial={"quick": 30, "thorough": 600}),
+             budget={"quick": 300, "thorough": 24000}, min_nontrivial={"quick": 30, "thorough": 2400}),
     ]
 
 
